@@ -218,6 +218,24 @@ pub fn run(ctx: &Ctx) -> Report {
             }
         }
     }
+    // many distinct matchers before the printers: identifiers and frame tags beyond 255
+    for n in [126usize, 127, 128, 130] {
+        for tail in [vec![Act::FPrint("first.out".into()), Act::FPrint0("second.out".into())], vec![Act::Print0], vec![Act::Print, Act::Printf(vec![FEl::F(Fld::Basename), FEl::E(Esc::Newline)])]] {
+            let mut e = E::T(Tst::Name("m0".into()));
+            for i in 1..n {
+                e = E::or(e, E::T(Tst::Name(format!("m{i}"))));
+            }
+            for a in tail {
+                e = E::and(e, E::A(a));
+            }
+            let mut f = FileRec::base(PLACEHOLDER_NOW);
+            f.rel_path = "dir/m7".into();
+            let c = Case { tree: e, files: vec![f], threads: None, via_text: false };
+            let (v, k) = judge_with(&c, false);
+            executions.fetch_add(k, std::sync::atomic::Ordering::Relaxed);
+            st2.record(&v, stable_hash(&c), true, || json!({"kind": "many-matchers", "matchers": n}));
+        }
+    }
     total.merge(st2);
     for smp in total.samples.iter_mut() {
         if let Some(n) = smp.get("files").and_then(|f| f.as_array()).map(|a| a.len()) {
